@@ -42,6 +42,7 @@ func TestC08RegressNilLists(t *testing.T) {
 		{"nil-lookuplist", &gtab.Info{ScriptList: dfltScripts(), FeatureList: oneFeature(), LookupList: nil}},
 		{"nil-featurelist", &gtab.Info{ScriptList: dfltScripts(), FeatureList: nil, LookupList: lookup}},
 		{"nil-scriptlist", &gtab.Info{ScriptList: nil, FeatureList: oneFeature(), LookupList: lookup}},
+		{"nil-featurelist-all-empty", &gtab.Info{ScriptList: gtab.ScriptListInfo{}, FeatureList: nil, LookupList: gtab.LookupList{}}},
 	} {
 		regressInfo(t, "nil-lists/"+v.name, &infoCase{kind: gtab.TypeGsub, info: v.x, desc: []string{v.name}})
 	}
